@@ -59,6 +59,10 @@ var c07Sets = [][]c07Route{
 	// prefix, a duplicate, a second match-all): the accepted routes stay as they were
 	{{Method: "GET", Text: "/a/{x}"}, {Method: "GET", Text: "/a/{x}/{y}/{y}", Rejected: true}, {Method: "GET", Text: "/a/{x}/z"}, {Method: "GET", Text: "/a/{x}/z", Rejected: true}, {Method: "GET", Text: "/{m: **}"}},
 	{{Method: "GET", Text: "/a/b/z"}, {Method: "GET", Text: "/a/?b"}, {Method: "GET", Text: "/a", Rejected: true}, {Method: "GET", Text: "/a/{m: **}/{n: **}/z", Rejected: true}, {Method: "GET", Text: "/a/{m: **}/z"}},
+	// an optional route refused only because its short form is taken (the long form alone would be new): neither
+	// form is served afterwards, and a later registration of the long form is served by its own chain
+	{{Method: "GET", Text: "/a/?z"}, {Method: "GET", Text: "/a/?b", Rejected: true}, {Method: "GET", Text: "/z/?{x}"}, {Method: "GET", Text: "/z/?{m: **}", Rejected: true}},
+	{{Method: "GET", Text: "/a"}, {Method: "GET", Text: "/a/z"}, {Method: "GET", Text: "/a/?{m: **}", Rejected: true}, {Method: "GET", Text: "/a/?b", Rejected: true}, {Method: "GET", Text: "/a/b"}},
 	// one placeholder between literals whose ends overlap (the prefix ends as the suffix begins): a segment
 	// shorter than both together carries the prefix and the suffix and still is no match
 	{{Method: "GET", Text: "/az{x}za"}, {Method: "GET", Text: "/a/a{y}a"}, {Method: "GET", Text: "/z/aa{x}aa/?z"}, {Method: "GET", Text: "/a.{x}.a/z"}},
@@ -312,6 +316,7 @@ func c07Paths(thorough bool) []string {
 	out = append(out, "/a/a-a/z", "/a/2-za/z", "/a/a-z", "/z/z", "/a/z/z")
 	out = append(out, `/a)(\Qb`, "/azb", "/ab", "/a)(b", `/az\Eb`, `/a\Qz\Eb`) // texts around the quoted expressions
 	out = append(out, "/aza", "/azza", "/azaza", "/azzza", "/a/a", "/a/aa", "/a/aaa", "/z/aaa", "/z/aaaa", "/z/aaaaa", "/z/aaa/z", "/a.a/z", "/a..a/z", "/a.z.a/z") // overlapping literals
+	out = append(out, "/a/b", "/a/b/z", "/z/a/b") // below a refused optional route
 	out = append(out, "/"+strings.Repeat("a/", 32*1024), strings.Repeat("/", 70000), "/a/"+strings.Repeat("z", 65536))
 	return out
 }
